@@ -22,6 +22,10 @@ RULE = ('trees of 0-4 changes x 0-5 files are built through the public API; '
         'snapshot equality of everything that is not a generated stats key, '
         'second call changes nothing. Non-trivial = >= 1 analysable diff '
         'with >= 1 change line; distinct = fingerprint of the tree spec.')
+RULE += (
+         ' Also: pre-existing statistics with float figures (exact binary '
+         'fractions). Process axes (DESIGN 2.8): 2 of 16 shards run under '
+         'python -O, 4 of 16 after a hostile warm-up of the library.')
 FLOOR = {'quick': 3000, 'thorough': 80000}
 REQUIRED_REACH = ['generate_stats']
 REQUIRED_COUNTERS = ['files_analysable', 'files_not_analysable',
